@@ -5,6 +5,41 @@ ROOT = os.path.dirname(os.path.abspath(__file__))
 
 # id -> dict(text, note, technique, design_ref, engine)
 CLAIMED = {
+ "C02": dict(
+    text="Lean 4 theorems on two x86-TSO handshake models, any number of readers, all interleavings and all placements of spurious/EINTR/EAGAIN "
+         "futex returns: no_lost_wakeup (a leader asleep on rcu_gp.futex always has a reader that will still wake it), gp_futex_range, "
+         "waker_not_stuck + waker_measure (that reader is never blocked and reaches FUTEX_WAKE within 17 own steps), and for the wait "
+         "node of merged callers waiter_no_lost_wakeup + waiter_teardown_safe; necessity witness lost_wakeup_without_fences. Tie: the "
+         "C01 trace refinement (real wait_for_readers/wait_gp/wake_up_gp/urcu-wait.h under the shim, futex fault plans incl. ENOSYS "
+         "compat path) plus a systematic one-preemption sweep around the spin->sleep transition; the runtime's deadlock/step-budget "
+         "detectors give concrete failing schedules. Partial: lock-order deadlock freedom and 'eventually' (fairness) are not theorems; "
+         "qsbr/bp not covered yet.",
+    note="Trusted: Lean kernel; x86-TSO + futex + sys_membarrier contracts; fair scheduler for 'eventually'; the abstract handshake "
+         "models are related to the code by the event-level replay on explored schedules only.",
+    technique="Lean 4 inductive-invariant proofs (TSO futex handshake, wait-node hand-over) + event-level trace refinement with fault injection and systematic preemption sweep",
+    design_ref="§4 C02", engine="gp"),
+ "C15": dict(
+    text="Lean 4 theorems on the C01 grace-period model with readers registering/unregistering at any time relative to both scan passes: "
+         "unregistered_never_scanned, scan_targets_registered, lists_partition, registered_late_not_waited, unregister_leaves_clean, and "
+         "gp_guarantee itself (proved on the model with dynamic registration). Tie: the C01 trace refinement with register/unregister "
+         "churn; the driver tracks registry/cur_snap/qs as ordered lists exactly as the cds_list operations order them, so every scan "
+         "load must hit the reader the C list order dictates. Partial: the bp flavor's automatic registration and registry arena, and "
+         "qsbr, are not covered by this check yet.",
+    note="Trusted: as C01. bp (arena growth, slot reuse, signal masking, thread-exit destructor) and qsbr registration are outside this check.",
+    technique="Lean 4 inductive-invariant proof on the TSO grace-period model + event-level trace refinement with registration churn",
+    design_ref="§4 C15", engine="gp"),
+ "C20": dict(
+    text="Lean 4 theorems over BitVec w for every width (8/16/32/64) and every operand: op_semantics (each uatomic op of the x86 and the "
+         "builtins implementation returns/stores the documented sequential result truncated to w, independent of the upper bits of the "
+         "extended operand), neighbours_untouched, rmw_no_lost_update / xchg_tokens_conserved (by construction of atomic steps), "
+         "rmw_is_fence on an explicit x86-TSO machine (SB litmus forbidden with a locked RMW between store and load, reachable "
+         "without). Tie: the real headers (default x86, -DCONFIG_RCU_USE_ATOMIC_BUILTINS, gnu99) run on boundary/exhaustive-8-bit/"
+         "random operands, every result and the 16-byte memory image replayed on the model; plain-C oracle; disassembly check that "
+         "RMWs are lock-prefixed/xchg of the right size; multi-thread hammer and hardware SB litmus as supporting exploration.",
+    note="Trusted: Lean kernel; that the CPU honours lock/xchg atomicity and fence semantics (hardware, not provable here); gcc emits the "
+         "asm as written (checked by disassembly); the exhaustive 8-bit runs are tests, no theorem depends on them; x86-64 only.",
+    technique="Lean 4 BitVec proofs of the width/extension plumbing + TSO litmus invariant; differential replay of the real headers; disassembly check",
+    design_ref="§4 C20", engine="uatomic"),
  "C01": dict(
     text="Lean 4 theorems gp_guarantee / gp_litmus / nested_only_outermost: inductive invariant (23 clauses, one lemma per transition) "
          "over an explicit x86-TSO model of the two-pass phase-flip grace period of src/urcu.c, for any number of readers, any nesting, "
